@@ -23,7 +23,7 @@ EXPLANATION = (
     "test a data value for truthiness); R-sortby-used (results of the pure sort_by / sort are used)."
 )
 NOT_DECIDED = "disjointness of groups under arbitrary update(); equality with a reference model along concrete histories (exploration / model checking)"
-FLOORS = {"R-comutation": 7, "R-append-absent": 14, "R-value-truthiness": 2, "R-nan-aware-lookup": 3, "R-no-raw-mutators": 1, "R-sortby-used": 3}
+FLOORS = {"R-comutation": 7, "R-append-absent": 14, "R-value-truthiness": 2, "R-nan-aware-lookup": 3, "R-no-raw-mutators": 1, "R-sortby-used": 5}
 
 RAW = {"insert", "extend", "reverse", "clear", "__setitem__", "__delitem__", "popitem"}
 
@@ -156,7 +156,39 @@ def rule_sortby_used(ctx):
         ctx.ob("R-sortby-used", construct(fi, "pure: returns a new GroupedList on every exit"), ok and not mut, loc(fi))
 
 
+def rule_pure_key_set(ctx):
+    """sort / sort_by return a GroupedList over exactly the keys of the receiver: the two key lists of
+    sort() partition the keys (a test and its negation), sort_by asserts both inclusions, and the new
+    object is built from {k: self.get(k)} over all of them."""
+    R = "R-sortby-used"
+    gl = ctx.repo.find_class("GroupedList")
+    fs = gl.methods.get("sort")
+    comps = [n.value for n in walk_no_nested(fs.node) if isinstance(n, ast.Assign) and isinstance(n.value, ast.ListComp) and unparse(n.value.generators[0].iter) == "self"]
+    ok = False
+    if len(comps) == 2 and all(len(c.generators[0].ifs) == 1 for c in comps):
+        a, b = comps[0].generators[0].ifs[0], comps[1].generators[0].ifs[0]
+        na = unparse(a)
+        nb = unparse(b)
+        ok = nb == f"not {na}" or na == f"not {nb}"
+    names = [unparse(n.targets[0]) for n in walk_no_nested(fs.node) if isinstance(n, ast.Assign) and n.value in comps]
+    merged = [n for n in walk_no_nested(fs.node) if isinstance(n, ast.Assign) and unparse(n.targets[0]) == "keys"]
+    ok = ok and len(merged) == 1 and all(nm in unparse(merged[0].value) for nm in names)
+    built = any(isinstance(n, ast.DictComp) and unparse(n.generators[0].iter) == "keys" and unparse(n.value) == f"self.get({unparse(n.key)})" for n in ast.walk(fs.node))
+    ctx.ob(R, construct(fs, "sort() re-orders all keys: the str / non-str key lists partition the list, every group is carried over"), ok and built, loc(fs),
+           "" if (ok and built) else "keys matching neither filter (e.g. int leaders) are dropped with their whole groups")
+    fb = gl.methods.get("sort_by")
+    asserts = [a for a in walk_no_nested(fb.node) if isinstance(a, ast.Assert)]
+    txt = [unparse(a.test).replace(" ", "") for a in asserts]
+    ok = "all((oinselfforoinordering))" in txt and "all((sinorderingforsinself))" in txt
+    built = any(isinstance(n, ast.DictComp) and unparse(n.generators[0].iter) == "ordering" and unparse(n.value) == f"self.get({unparse(n.key)})" for n in ast.walk(fb.node))
+    ctx.ob(R, construct(fb, "sort_by(ordering) requires ordering == keys (both inclusions) and carries every group over"), ok and built, loc(fb))
+
+
 def check(ctx):
+    rule_pure_key_set(ctx)
+    from .truthiness import check_or_default
+
+    check_or_default(ctx, "R-value-truthiness", list(ctx.repo.find_class("GroupedList").methods.values()))
     check_comutation(ctx, "R-comutation")
     check_append_absent(ctx, "R-append-absent")
     gl = ctx.repo.find_class("GroupedList")
@@ -204,6 +236,8 @@ MUTANTS = [
     M("contains compares with ==", [(F_GL, "return any(is_equal(value, known) for known in self.values())", "return any(value == known for known in self.values())")], "R-nan-aware-lookup", "contains"),
     M("is_equal forgets missing values", [(F_GL, "    if isna(a) and isna(b):\n        equal = True\n", "")], "R-nan-aware-lookup", "is_equal"),
     M("group guards with != instead of is_equal", [(F_GL, "        if not is_equal(discarded, kept):\n            # checking that those values exist in the list", "        if discarded != kept:\n            # checking that those values exist in the list")], "R-nan-aware-lookup", "GroupedList.group"),
+    M("get_group falls back when the leader found is falsy", [(F_GL, "        if len(found) > 0:\n            return found[0]\n\n        return value", "        return (found[0] if len(found) > 0 else None) or value")], "R-value-truthiness", "get_group"),
+    M("sort() keeps only str and float keys", [(F_GL, "        keys_float = [key for key in self if not isinstance(key, str)]", "        keys_float = [key for key in self if isinstance(key, float)]")], "R-sortby-used", "sort()"),
     M("raw insert on an order", [(F_QUAL, "                    order.append(self.str_nan)\n                    self.values_orders.update({feature: order})\n\n        # filling up NaNs", "                    order.insert(0, self.str_nan)\n                    self.values_orders.update({feature: order})\n\n        # filling up NaNs")], "R-no-raw-mutators", quick=True),
     M("sort_by result discarded in CategoricalDiscretizer", [(F_QUAL, "            self.values_orders.update({feature: order.sort_by(new_order)})", "            order.sort_by(new_order)\n            self.values_orders.update({feature: order})")], "R-sortby-used", "CategoricalDiscretizer.fit"),
     M("get_group tests the leader's truthiness in the comprehension", [(F_GL, "            if any(is_equal(value, elt) for elt in values)\n        ]", "            if any(elt for elt in values if is_equal(value, elt))\n        ]")], "R-value-truthiness", "get_group"),
